@@ -19,6 +19,10 @@ func checkC02(c *Ctx) {
 	c.firstTreeConv("io/phyloxml", "PhyloXML")
 	c.firstTreeConv("io/nextstrain", "Nextstrain")
 	c.Floor("FIRST", 6)
+	c.Decides("ALLOC-INPUT: in the reader packages no make() is sized by a number parsed from the input with strconv (a corrupted NTAX would panic or exhaust memory instead of giving an error)")
+	if nm, _ := c.allocFromInput("ALLOC-INPUT", c.funcsInFiles("io/newick/", "io/nexus/", "io/phyloxml/", "io/nextstrain/", "io/utils/", "io/fileutils/"), "it never panics, kills the process or loops forever"); nm < 3 {
+		c.Undecided("ALLOC-INPUT", "scan", 0, fmt.Sprintf("only %d make() calls with a size seen in the reader packages", nm))
+	}
 	c.Decides("ERR-DEAD: in the reader packages the error a call stores in a variable is read before that variable is assigned again on every path (a failed read cannot be overwritten by the next one)")
 	c.Decides("ERR-SWALLOW: in the reader packages, a branch entered because an error value is non-nil does not leave the function with a nil error (no `return nil`, no bare return with an unset named result)")
 	c.errDeadIn("returns either a tree ... or an error", 40, "io/newick/", "io/nexus/", "io/phyloxml/", "io/nextstrain/", "io/utils/", "io/fileutils/")
